@@ -243,7 +243,7 @@ type vPipeSink struct {
 	drain  chan struct{}
 	once   sync.Once
 	closed bool  // set by the harness once the writer has closed its end
-	slow   int32 // 1: the consumer reads 512 bytes every 150 us
+	slow   int32 // 1: the consumer reads 4 KiB every 150 us
 }
 
 // newPipeSink creates the FIFO and opens its read end (raw, non-blocking). The consumer goroutine
@@ -266,7 +266,7 @@ func newPipeSink(path string) (*vPipeSink, error) {
 		for {
 			rb := buf
 			if atomic.LoadInt32(&s.slow) == 1 {
-				rb = buf[:512] // a disk slower than the acquisition: the queue hovers around full
+				rb = buf[:4096] // a disk slower than the acquisition: the queue hovers around full
 				time.Sleep(150 * time.Microsecond)
 			}
 			s.mu.Lock()
@@ -325,13 +325,18 @@ func (s *vStall22) recSize() int   { return 16 + 2*s.n }
 func (s *vStall22) sizeOf(int) int { return s.recSize() }
 
 type vStall3 struct {
-	w    *ljh.Writer3
-	n    int
-	long int // > 0: every seventh record has this many samples (LJH3 records carry their own length)
+	w     *ljh.Writer3
+	n     int
+	long  int // > 0: every seventh record has this many samples (LJH3 records carry their own length)
+	every int // 0 = 7
 }
 
 func (s *vStall3) lenOf(id int) int {
-	if s.long > 0 && id%7 == 3 {
+	ev := 7
+	if s.every > 0 {
+		ev = s.every
+	}
+	if s.long > 0 && id%ev == 3%ev {
 		return s.long
 	}
 	return s.n
@@ -421,6 +426,9 @@ func vRunStallLayer2(c *vCase) bool {
 	// "during-flush"/"during-close": the disk stays stalled, with the queue full, until Flush (Close) has been called
 	// "slow-drain": after the first rejection the disk comes back but stays slower than the producer for a few thousand records
 	releaseAt := vPick(r, "first-reject", "after-rejects", "partly-full", "during-flush", "during-close", "slow-drain", "slow-drain")
+	if s3, ok := sw.(*vStall3); ok && releaseAt == "slow-drain" && s3.long > 0 {
+		s3.every = 2 // every other record is a long one while the queue hovers around full
+	}
 	var accepted []int
 	accBytes := 0 // total size of the accepted records
 	id := 0
@@ -442,6 +450,9 @@ func vRunStallLayer2(c *vCase) bool {
 	// into a slot needs more writes before the queue is full, so a stalled script keeps going until it sees a rejection
 	needReject := releaseAt != "partly-full"
 	for i := 0; i < budget || (!released && needReject && rejects == 0 && i < 300000); i++ {
+		if released && releaseAt == "slow-drain" {
+			time.Sleep(40 * time.Microsecond) // records keep coming at a finite rate while the slow disk frees one queue slot after the other
+		}
 		err := sw.write(id)
 		if err == nil {
 			accepted = append(accepted, id)
@@ -461,7 +472,7 @@ func vRunStallLayer2(c *vCase) bool {
 				atomic.StoreInt32(&sink.slow, 1)
 				sink.release()
 				released = true
-				budget = i + 2000 + r.Intn(2000)
+				budget = i + 4000 + r.Intn(2000)
 				c.Cov("l2_slow_drain", 1)
 				continue
 			}
